@@ -31,7 +31,7 @@ def check(run, views, tier):
         run.floor("R-LAYOUT", ne, 20, "loop-free encoder arms")
         run.floor("R-LAYOUT", nd, 19, "decoder arms")
         np_ = cr.r_tagbody_bracket(run, F, T)
-        run.floor("R-TAGBODY", np_, 3, "tag/body pairs in sets and collections")
+        run.floor("R-TAGBODY", np_, 2, "tag/body pairs in sets and collections")
         cr.r_be(run, F)
         cr.r_frame(run, F)
         nk = cr.r_mapkey(run, F)
